@@ -161,6 +161,10 @@ func (g *tmplGen) valid(depth int) string {
 			sb.WriteString("{{if false}}{{.NoSuchField}}{{end}}{{if " + g.ref() + "}}x{{else}}{{.NoSuchField.Deeper}}{{end}}")
 		case 2:
 			sb.WriteString("{{with $u := \"\"}}{{.Missing}}{{else}}ok{{end}}")
+		case 3: // the report itself handed to a printing function: its dynamic type and pointer-ness show
+			sb.WriteString([]string{"{{printf \"%T\" .}}", "{{printf \"%T|%T\" $ .Vector}}", "{{len (printf \"%v\" .)}}", "{{len (print $)}}", "{{printf \"%.3v\" .}}", "{{printf \"%.1s\" (printf \"%v\" .)}}"}[g.rng.IntN(6)])
+		case 4: // the report's own methods called from the template (they have pointer receivers)
+			sb.WriteString([]string{"{{.ExportWithString \"[{{.Vector}}]\"}}", "{{.ExportWithString " + g.ref() + "}}", "{{$.ExportWithString \"{{.Version}}{{/* nested */}}\"}}", "{{with .ExportWithString \"x\"}}{{printf \"%T\" .}}{{end}}"}[g.rng.IntN(4)])
 		}
 	}
 	sb.WriteString(g.lit())
